@@ -9,6 +9,7 @@ from __future__ import annotations
 
 import ast
 import builtins
+import functools
 import inspect
 import operator
 import textwrap
@@ -192,6 +193,21 @@ _CMPOPS = {
 
 NOOP_CALLS = {"print", "warn", "tqdm"}
 
+
+
+def _value_signature(v, depth=0):
+    """Identity / write-counter signature of a value (depth 2): changes when the value is mutated in place."""
+    if isinstance(v, SymArr):
+        return ("arr", id(v), v.writes, id(v.fn))
+    if isinstance(v, Obj):
+        return ("obj", id(v), tuple((k, _value_signature(x, depth + 1) if depth < 2 else id(x)) for k, x in sorted(v.fields.items(), key=lambda kv: str(kv[0]))))
+    if isinstance(v, (list, tuple)):
+        return (type(v).__name__, len(v), tuple(_value_signature(x, depth + 1) if depth < 2 else id(x) for x in v[:50]))
+    if isinstance(v, dict):
+        return ("dict", len(v), tuple((str(k), _value_signature(x, depth + 1) if depth < 2 else id(x)) for k, x in list(v.items())[:50]))
+    if isinstance(v, (Sym, int, float, complex, str, bytes, bool, type(None))):
+        return ("imm",)
+    return ("id", id(v))
 
 
 _SIMPLE_ACCESSOR = {}
@@ -1508,6 +1524,14 @@ class Interp:
             return self.call(f.func, [f.obj] + list(args), kwargs, node)
         if isinstance(f, Obj) and hasattr(f.cls, "__call__"):
             return self.call(self.getattr(f, "__call__"), args, kwargs, node)  # calling an abstract instance: cls.__call__
+        if self.ctx.ghost.get("memo_stack"):
+            try:
+                if f in reg.stateful or getattr(f, "__func__", None) in reg.stateful:
+                    nm = getattr(f, "__qualname__", None) or getattr(f, "__name__", repr(f))
+                    self.ctx.ghost.setdefault("memo_bad", []).append(
+                        f"memoised {self.ctx.ghost['memo_stack'][-1]} reads mutable external state through {getattr(f, '__module__', '')}.{nm}")
+            except TypeError:
+                pass
         # models keyed by the real callable
         try:
             m = reg.models.get(f)
@@ -1517,6 +1541,8 @@ class Interp:
             r = m(self, *args, **kwargs)
             if r is not NotImplemented:
                 return r
+        if isinstance(f, functools._lru_cache_wrapper) and self.is_repo_function(f):
+            return self.call_memoised(f, args, kwargs)
         # bound methods of real objects whose underlying function is modelled / contracted
         if isinstance(f, types.MethodType):
             m = reg.models.get(f.__func__)
@@ -1562,6 +1588,27 @@ class Interp:
         except Exception as e:
             raise RaiseSig(e)
 
+    # ---- functools.lru_cache / functools.cache on repository functions
+    def call_memoised(self, f, args, kwargs):
+        """A memoising wrapper is transparent for ONE call (the wrapped body is interpreted) but not over a call history:
+        the events that make it observable - the body reads mutable external state, or a cached result is written in place
+        later - are collected and reported by the contract's summary frame obligation (registry.Contract.verify)."""
+        g = self.ctx.ghost
+        qn = f"{f.__module__}:{f.__qualname__}"
+        g.setdefault("memo_stack", []).append(qn)
+        try:
+            r = self.call(f.__wrapped__, args, kwargs)
+        finally:
+            g["memo_stack"].pop()
+        g.setdefault("memo_results", []).append((qn, r, _value_signature(r)))
+        return r
+
+    def check_memoised_results(self):
+        g = self.ctx.ghost
+        for qn, r, sig in g.get("memo_results", ()):
+            if _value_signature(r) != sig:
+                g.setdefault("memo_bad", []).append(f"the cached result of memoised {qn} is written in place after the call")
+
     def is_repo_function(self, f):
         return (getattr(f, "__module__", "") or "").startswith(self.reg.repo_prefix)
 
@@ -1588,6 +1635,16 @@ class Interp:
             # accessor must not make the contract undecidable
             self.ctx.ghost.setdefault("inlined", set()).add(qn)
             return self.call_closure(self.closure_of(f), args, kwargs)
+        if self.ctx.ghost.get("auto_inline_depth", 0) < 3:
+            # no contract and no permission: interpret the callee's real body in place (always sound; depth-limited so that an
+            # unexpected recursion ends as `undecided`).  Keeps "extract a helper function" refactorings decidable.
+            g = self.ctx.ghost
+            g["auto_inline_depth"] = g.get("auto_inline_depth", 0) + 1
+            g.setdefault("inlined", set()).add(qn + " (auto)")
+            try:
+                return self.call_closure(self.closure_of(f), args, kwargs)
+            finally:
+                g["auto_inline_depth"] -= 1
         raise OutOfSubset(f"call to {qn} has neither contract nor inline permission")
 
     def under_verification_top(self):
